@@ -180,7 +180,7 @@ fn cases() -> Vec<Case> {
         out.push(Case { funcs, style: NumStyle::Hex, exec: true, reject: None, raw: None, split_impl: true, arg_names: None, expect_methods: vec![] });
     }
     // parameter names that collide with names the wrapper itself uses
-    for names in [vec!["f", "this"], vec!["this", "f"], vec!["f_", "f"], vec!["r#type", "address"], vec!["name", "function"]] {
+    for names in [vec!["f", "this"], vec!["this", "f"], vec!["f_", "f"], vec!["r#type", "address"], vec!["name", "function"], vec!["r#f", "g"], vec!["f", "r#f_"], vec!["r#f_", "r#f"], vec!["r#this", "f__"]] {
         for recv in [Recv::None, Recv::Mut] {
             let funcs = vec![Func { name: "g".into(), recv, args: vec![ATy::U64, ATy::PtrU8], ret: RTy::U64, addr: EXEC_ADDRS[1] + 0x800, public: true }];
             out.push(Case { funcs, style: NumStyle::Dec, exec: true, reject: None, raw: None, split_impl: false, arg_names: Some(names.clone()), expect_methods: vec![] });
